@@ -157,6 +157,49 @@ def gen_cases(ck):
               b"\x1f5", b"99999999999999999999", b"1e5", b"0x1f", b"12 34", b"1,000", b"+ 1", b"- 1", b"\xd9\xa3",
               b"184467440737095516150", b"0", b"00", b"-00x"]:
         cases.append(("readu " + hx(t), {"t": "readu"}))
+    # H. the distributions on top of the engine: vita::random::between / boolean predicted from the seed
+    import struct
+
+    def dhx(x):
+        return "%016x" % struct.unpack("<Q", struct.pack("<d", x))[0]
+
+    def sh(v):
+        return ("-%x" % -v) if v < 0 else "%x" % v
+
+    def rand_req():
+        r = rng.random()
+        if r < 0.55:
+            k = rng.random()
+            if k < 0.25:
+                w = rng.choice([1, 2, 3, 5, 100, 256, 257, 1000])
+            elif k < 0.5:
+                w = 2 ** rng.randint(1, 63) + rng.randint(-1, 1)
+            elif k < 0.7:
+                w = rng.randint(2 ** 63, 2 ** 64 - 2)           # more than half of the generator's range: frequent rejections
+            elif k < 0.8:
+                w = rng.choice([2 ** 64 - 1, 2 ** 64 - 2, 2 ** 32 - 1, 2 ** 32, 2 ** 32 + 1, 2 ** 31 - 1])
+            else:
+                w = rng.randint(1, 2 ** rng.randint(1, 64) - 1)
+            kind = rng.random()
+            if w <= 2 ** 32 - 2 and kind < 0.4:
+                lo = rng.randint(-2 ** 31, 2 ** 31 - 1 - w)       # int
+            elif w <= 2 ** 63 and kind < 0.7:
+                lo = rng.randint(-2 ** 63, 2 ** 63 - 1 - w)       # long long (hi <= 2^63 - 1)
+            else:
+                lo = rng.randint(0, 2 ** 64 - 1 - w)              # unsigned / size_t
+            return "i:%s:%s" % (sh(lo), sh(lo + w))
+        if r < 0.8:
+            lo, hi = rng.choice([(-5.12, 5.12), (0.0, 1.0), (0.5, 1.0), (-1e308, 1e308), (0.0, 5e-324), (1e300, 1.5e300),
+                                 (-1.0, 1e-20), (123.456, 123.45600000000002), (-1e-310, 1e-310),
+                                 (rng.uniform(-100, 0), rng.uniform(0.001, 100))])
+            return "r:%s:%s" % (dhx(lo), dhx(hi))
+        if r < 0.97:
+            return "b:" + dhx(rng.choice([0.0, 1.0, 0.5, 0.1, 0.04, 0.9, 0.9999999999999999, 5e-324, rng.random()]))
+        return "s"
+    for i in range(30 * T):
+        seed = rng.choice([0, 1, 2 ** 32 - 1]) if i < 3 else rng.getrandbits(32)
+        reqs = [rand_req() for _ in range(rng.choice([1, 10, 100, 300]))]
+        cases.append(("draws %s %s" % (h(seed), " ".join(reqs)), {"t": "draws", "seed": seed, "n": len(reqs)}))
     # determinism inside the harness process: the same seq lines again, last
     dup = [c for c in cases if c[1]["t"] == "seq"][:10]
     for line, meta in reversed(dup):
@@ -197,6 +240,18 @@ def judge(ck, cases, hout, mout, crashes):
                                  "engine(%s) gave two different output sequences in the same process" % h(meta["seed"]),
                                  {"cases": [line, line], "first": prev, "second": ho})
             seen_seq[line] = ho
+        elif t == "draws":
+            ck.nontriv(("draws", meta["seed"], meta["n"]))
+            ck.coverage["predicted_draws_unit"] = ck.coverage.get("predicted_draws_unit", 0) + meta["n"]
+            for rq, an in zip(line.split()[2:], ho.split()):
+                if rq.startswith("i:"):
+                    lo, hi = [int(x, 16) for x in rq.split(":")[1:]]
+                    v = int(an.split(":")[1], 16) if an.startswith("i:") else None
+                    if v is None or not lo <= v < hi:
+                        ck.add_violation("random::between:out-of-range",
+                                         "vita::random::between(%d, %d) after seed %d returned %s" % (lo, hi, meta["seed"], an),
+                                         {"cases": [line], "impl": ho[:400], "model": (mo or "")[:400]})
+                        break
         elif t == "rseed":
             g = groups.setdefault(meta["group"], (line, ho))
             if g[1] != ho:
@@ -300,13 +355,54 @@ def transcript(exe, kind, seed, par, variant):
         # relative order of heap addresses is REVERSED with respect to run 0 (address-dependent ordering shows up)
         env["MALLOC_MMAP_THRESHOLD_"] = "0"
         env["MALLOC_TOP_PAD_"] = "0"
-    args = [exe, kind, str(seed)] + ["%s=%s" % kv for kv in sorted(par.items())]
+    args = [exe, kind, str(seed)] + ["%s=%s" % kv for kv in sorted(par.items())] + ["drawfmt=1"]
     p = subprocess.run(args, env=env, stdout=subprocess.PIPE, stderr=subprocess.PIPE, timeout=600)
     return p.returncode, p.stdout, p.stderr.decode(errors="replace"), args
 
 
-def double_runs(ck, exes, cfgs):
+def predict_run_draws(ck, model, cmd, seed, transcript_bytes, limit):
+    """the H1 log of a real search (kind, lo, hi, value) against the model's prediction from the seed alone"""
+    def sh(v):
+        return ("-%x" % -v) if v < 0 else "%x" % v
+    reqs, exp = [], []
+    for l in transcript_bytes.split(b"\n"):
+        if not l.startswith(b"D "):
+            continue
+        f = l[2:].decode().split(":")
+        if f[0] == "i":
+            lo, hi, v = int(f[1]), int(f[2]), int(f[3])
+            if not lo <= v < hi:
+                ck.add_violation("random::between:out-of-range", "`%s`: draw #%d between(%d,%d) = %d" % (cmd, len(reqs), lo, hi, v),
+                                 {"run": cmd, "draw": l.decode()})
+            reqs.append("i:%s:%s" % (sh(lo), sh(hi))); exp.append("i:" + sh(v))
+        elif f[0] == "r":
+            reqs.append("r:%s:%s" % (f[1], f[2])); exp.append("r:" + f[3])
+        elif f[0] == "b":
+            reqs.append("b:" + f[1]); exp.append("b:" + f[2])
+        elif f[0] == "d":
+            reqs.append("s"); exp.append("s")       # one engine output, value depends on weights that are not logged
+        else:
+            break                                   # 'n' (normal distribution): not modelled, prediction stops here
+        if len(reqs) >= limit:
+            break
+    if not reqs:
+        return 0
+    rc, mo, merr = vv.run_lines(model, "draws %016x %s\n" % (seed % 2 ** 32, " ".join(reqs)))
+    got = mo[0].split() if rc == 0 and mo else []
+    ck.count()
+    if got != exp:
+        i = next((i for i in range(min(len(got), len(exp))) if got[i] != exp[i]), min(len(got), len(exp)))
+        ck.add_diff({"run": cmd, "draw_index": i, "request": reqs[i] if i < len(reqs) else None},
+                    got[i] if i < len(got) else None, exp[i] if i < len(exp) else None,
+                    what="the H1 draw log of the run differs from the model's prediction from the seed")
+    else:
+        ck.nontriv(("predicted", cmd))
+    return len(reqs)
+
+
+def double_runs(ck, exes, cfgs, model=None):
     total = 0
+    predicted = 0
     for kind, seed, par in cfgs:
         for exe_name, exe in exes:
             rc0, a, e0, args = transcript(exe, kind, seed, par, 0)
@@ -326,6 +422,8 @@ def double_runs(ck, exes, cfgs):
                 {"cmd": cmd, "build": exe_name, "draws": ndraw, "generations": ngen, "bytes": len(a)})
             if ngen > 0 and ndraw > 0:
                 ck.nontriv(("run", exe_name, cmd))
+            if model and exe_name == "asan" and (ck.thorough or par == {"gen": 5, "pop": 24}):
+                predicted += predict_run_draws(ck, model, cmd, seed, a, 200000 if ck.thorough else 8000)
             if a != b:
                 la, lb = a.split(b"\n"), b.split(b"\n")
                 i = next((i for i in range(min(len(la), len(lb))) if la[i] != lb[i]), min(len(la), len(lb)))
@@ -335,6 +433,7 @@ def double_runs(ck, exes, cfgs):
                                  {"run": {"kind": kind, "seed": seed, "par": par, "build": exe_name},
                                   "line": i, "first": la[i].decode(errors="replace")[:300] if i < len(la) else None,
                                   "second": lb[i].decode(errors="replace")[:300] if i < len(lb) else None})
+    ck.coverage["run_draws_predicted_from_seed"] = predicted
     return total
 
 
@@ -477,6 +576,7 @@ def run(ck):
     ck.add_proof(res)
     res2 = vv.prove("Refuted_C07", set())
     ck.add_proof(res2)
+    ck.add_proof(vv.prove("Dist_C07", vv.FLOCQ_AXIOMS))
     ck.trusted += ["coq/Rng/RngDefs.v is a hand-written model of xoshiro256ss.{h,cc} and random::seed (tie: correspondence only)",
                    "the decimal codec models libstdc++ operator<< / operator>> for unsigned long in the C locale",
                    "extraction: ExtrOcamlBasic only, no Extract Constant; ocaml/rng_driver.ml + zutil.ml",
@@ -537,7 +637,7 @@ def run(ck):
     shrink_reload(ck, harness)
     ck.coverage["per_case_kind"] = hist
 
-    nruns = double_runs(ck, exes, cfgs)
+    nruns = double_runs(ck, exes, cfgs, model)
     ck.coverage["double_run_pairs"] = nruns
     timing_runs(ck, runner, tcfgs)
     inproc_runs(ck, runner, icfgs)
